@@ -14,6 +14,7 @@ import (
 	"verif/harness/rawpeer"
 	"verif/harness/refcodec"
 	"verif/harness/sess"
+	"verif/rt/vrt"
 	"verif/rt/vsched"
 )
 
@@ -41,6 +42,7 @@ func mkfs() *memfs.FS {
 	fs.MkdirP("d/sub")
 	fs.AddFile("d/sub/k", []byte("k"))
 	fs.MkdirP("e")
+	fs.MkdirP("d/emp")
 	fs.AddFile("f", []byte("0123456789"))
 	fs.AddNode("s", 0o120777, nil, "f")
 	return fs
@@ -73,6 +75,7 @@ var ops = []op{
 	{"mknod", "dir", -1, func(t uint16, f, nf uint32, s string) refcodec.Msg { return rawpeer.Tmknod(t, f, "mn"+s, 0o10644) }},
 	{"unlinkat", "dir", -1, func(t uint16, f, nf uint32, s string) refcodec.Msg { return rawpeer.Tunlinkat(t, f, "x") }},
 	{"renameat", "dir", -1, func(t uint16, f, nf uint32, s string) refcodec.Msg { return rawpeer.Trenameat(t, f, "x", fidE, "rn"+s) }},
+	{"renameat-same", "dir", -1, func(t uint16, f, nf uint32, s string) refcodec.Msg { return rawpeer.Trenameat(t, f, "x", f, "xs"+s) }},
 	{"rename", "nonroot", -1, func(t uint16, f, nf uint32, s string) refcodec.Msg { return rawpeer.Trename(t, f, fidE, "rm"+s) }},
 	{"remove", "nonroot", -1, func(t uint16, f, nf uint32, s string) refcodec.Msg { return rawpeer.Tremove(t, f) }},
 	{"getattr", "any", -1, func(t uint16, f, nf uint32, s string) refcodec.Msg { return rawpeer.Tgetattr(t, f) }},
@@ -361,6 +364,53 @@ func afterRenameScenario(how, name string, oa, ob op) *fw.Scenario {
 	}}
 }
 
+// fenceScenario: a request that removes or overwrites an entry, in flight
+// together with a path-dependent request through a fid on that entry.
+func fenceScenario(kill string, victim string, ob op) *fw.Scenario {
+	nm := fmt.Sprintf("fence:%s || %s@%s", kill, ob.name, victim)
+	return &fw.Scenario{Name: nm, Params: map[string]any{"kill": kill, "victim": victim, "B": ob.name}, RaceOK: true, New: func() (func(), func(*vsched.Execution) ([]fw.Issue, string)) {
+		var fs *memfs.FS
+		base := 0
+		var replies [2]refcodec.Msg
+		body := func() {
+			fs = mkfs()
+			memfs.RecordSites = true
+			srv := sess.NewServer(fs)
+			s1 := sess.Connect(fs, srv, "c1")
+			s1.Version(8192)
+			s1.Attach(1)
+			bind(s1, 9, nD, -1)
+			bind(s1, fidE, nE, -1)
+			bind(s1, fidF, "/f", -1)
+			bind(s1, 11, victim, -1)
+			var A refcodec.Msg
+			switch kill {
+			case "rmdir-emp":
+				A = rawpeer.Tunlinkat(100, 9, "emp")
+			case "unlink-y":
+				A = rawpeer.Tunlinkat(100, 9, "y")
+			case "rename-x-over-y":
+				A = rawpeer.Trenameat(100, 9, "x", 9, "y")
+			case "rename-sub-over-emp":
+				A = rawpeer.Trenameat(100, 9, "sub", 9, "emp")
+			}
+			base = len(fs.Calls)
+			vsched.BeginExplore()
+			s1.Peer.SendAll(A, ob.mk(101, 11, 21, "B"))
+			replies[0], _ = s1.Peer.Recv()
+			replies[1], _ = s1.Peer.Recv()
+			vsched.EndExplore()
+			s1.Hangup()
+			s1.WaitDone()
+		}
+		check := func(e *vsched.Execution) ([]fw.Issue, string) {
+			is := append(oracle.ContractIssues(fs, base), oracle.FenceIssues(fs, base)...)
+			return is, fmt.Sprintf("%s/%d %s/%d calls=%d", replies[0].Name(), rawpeer.Errno(replies[0]), replies[1].Name(), rawpeer.Errno(replies[1]), len(fs.Calls)-base)
+		}
+		return body, check
+	}}
+}
+
 func opNamed(n string) op {
 	for _, o := range ops {
 		if o.name == n {
@@ -371,7 +421,10 @@ func opNamed(n string) op {
 }
 
 func run(ctx *fw.Ctx, rep *fw.Report) {
-	rep.Rule = "scenario = ordered pair (A,B) of the 27 backend-reaching request types x path relation {same fid, two fids one path, parent/child, child/parent, siblings} x {one, two connections}, two requests in flight on the real server over memfs; all Mazurkiewicz traces (DPOR+sleep sets; fallback preemption bound 0,1); oracle: conflict matrix of the File interface comments over happens-before of backend enter/exit events (not physical overlap), plus Open count per handle; plus 12 scenarios with a fid from before and a fid from after a rename of the entry, plus 16 two-round scenarios (two FIRST walks to one fresh name in flight together, then a conflicting pair through the two new fids); distinct = distinct (replies, call count, unordered-pair flag) per scenario"
+	// Races are C16's matter (every scenario here is RaceOK): skip the
+	// race bookkeeping on the quietly recorded fields.
+	vrt.QuietRecording = false
+	rep.Rule = "scenario = ordered pair (A,B) of the 28 backend-reaching request types x path relation {same fid, two fids one path, parent/child, child/parent, siblings} x {one, two connections}, two requests in flight on the real server over memfs; all Mazurkiewicz traces (DPOR+sleep sets; fallback preemption bound 0,1); oracle: conflict matrix of the File interface comments over happens-before of backend enter/exit events (not physical overlap), plus Open count per handle; plus 28 fencing scenarios (an unlink / overwriting rename in flight together with a path-dependent request through a fid on the victim: no such backend call may start after the removing call returned), plus 12 scenarios with a fid from before and a fid from after a rename of the entry, plus 16 two-round scenarios (two FIRST walks to one fresh name in flight together, then a conflicting pair through the two new fids); distinct = distinct (replies, call count, unordered-pair flag) per scenario"
 	rep.Assumptions = append(rep.Assumptions, "independence classes of DESIGN §2.2", "conflict matrix transcribed from p9/file.go comments; 'none' class (StatFS, Lock, Close) and xattr methods never flagged", "setup before the explored window follows the default schedule and settles")
 	type sc struct {
 		p      params
@@ -427,6 +480,24 @@ func run(ctx *fw.Ctx, rep *fw.Report) {
 			}
 		}
 	}
+	// fencing under concurrency (C08's "once unlinked ... without reaching the backend")
+	for _, f := range []struct {
+		kill, victim string
+		ops          []string
+	}{
+		{"rmdir-emp", "/d/emp", []string{"walk", "walkgetattr", "walk2", "lcreate", "mkdir", "symlink", "link", "mknod", "unlinkat", "renameat", "lopen", "setattr", "rename", "remove", "xattrwalk"}},
+		{"rename-sub-over-emp", "/d/emp", []string{"walk", "mkdir", "lcreate", "setattr"}},
+		{"unlink-y", nY, []string{"lopen", "setattr", "rename", "remove", "xattrwalk"}},
+		{"rename-x-over-y", nY, []string{"lopen", "setattr", "rename", "remove"}},
+	} {
+		for _, on := range f.ops {
+			k++
+			if !ctx.Mine(k) {
+				continue
+			}
+			fw.RunScenario(ctx, rep, fenceScenario(f.kill, f.victim, opNamed(on)), fw.SchedOpts{Budget: budget, ForcePB: -1, Fallback: []int{0, 1}, Deviations: -1})
+		}
+	}
 	// a conflicting pair through a fid from before a rename and one from after it
 	for _, how := range []string{"renameat", "rename", "renameat-away-and-back"} {
 		for _, tgt := range []struct {
@@ -446,7 +517,9 @@ func run(ctx *fw.Ctx, rep *fw.Report) {
 		if !ctx.Mine(i) {
 			continue
 		}
-		if ctx.Quick() && s.p.TwoConns && (s.p.Rel == "siblings" || s.p.Rel == "child-parent") {
+		if ctx.Quick() && ((s.p.TwoConns && (s.p.Rel == "siblings" || s.p.Rel == "child-parent")) ||
+			// quick: walk2 subsumes walk-sub's first step; the two-connection variants of the extra walk kinds are left to thorough
+			s.p.A == "walk-sub" || s.p.B == "walk-sub" || (s.p.TwoConns && (s.p.A == "walk2" || s.p.B == "walk2" || s.p.A == "renameat-same" || s.p.B == "renameat-same"))) {
 			rep.Count("scenarios_left_to_thorough", 1)
 			continue
 		}
